@@ -82,6 +82,9 @@ const (
 	KQuant             // forall/exists; Op = "forall"|"exists"; Args[0] = body
 )
 
+// TraceCreate, when set, is called for every newly created term (debugging aid for determinism).
+var TraceCreate func(id int, key string)
+
 type DeclFun struct {
 	Name string
 	Args []Sort
@@ -137,6 +140,9 @@ func (c *Ctx) mk(kind Kind, op string, sort Sort, args ...*Term) *Term {
 	}
 	c.nextID++
 	t := &Term{Op: op, Args: args, Sort: sort, ID: c.nextID, Kind: kind}
+	if TraceCreate != nil {
+		TraceCreate(c.nextID, key)
+	}
 	for _, a := range args {
 		if a.open {
 			t.open = true
@@ -1069,11 +1075,13 @@ func (c *Ctx) Script(logicHeader string, asserts []*Term, footer string, extra .
 		extraOnly[t.ID] = true
 	}
 	names := map[int]string{}
+	nseq := 0
 	for _, t := range order {
 		if t.Kind == KApp && len(t.Args) > 0 && !t.open && ref[t.ID] > 1 && !extraOnly[t.ID] {
 			var b strings.Builder
 			t.write(&b, names)
-			name := fmt.Sprintf("d!%d", t.ID)
+			nseq++
+			name := fmt.Sprintf("d!%d", nseq)
 			fmt.Fprintf(&sb, "(define-fun %s () %s %s)\n", name, t.Sort, b.String())
 			names[t.ID] = name
 		}
